@@ -467,14 +467,25 @@ func c16(c *core.Ctx) {
 						}
 					}
 				}
-				fieldFrom := func(v ssa.Value) (string, ssa.Value) {
+				var fieldFromD func(v ssa.Value, depth int) (string, ssa.Value)
+				fieldFromD = func(v ssa.Value, depth int) (string, ssa.Value) {
+					if v == nil || depth > 3 {
+						return "", nil
+					}
 					for _, o := range core.Origins(v) {
 						if base, f, ok := core.FieldOf(o); ok {
 							return f, base
 						}
+						// the parameter of a single-use constructor (newStreamServerInfo(...)): what its call hands it
+						if r := core.ResolveFree(o); r != o {
+							if f, b := fieldFromD(r, depth+1); f != "" {
+								return f, b
+							}
+						}
 					}
 					return "", nil
 				}
+				fieldFrom := func(v ssa.Value) (string, ssa.Value) { return fieldFromD(v, 0) }
 				fc, bc := fieldFrom(got["IsClientStream"])
 				fs, bs := fieldFrom(got["IsServerStream"])
 				okFlags := fc == "ClientStreams" && fs == "ServerStreams" && bc != nil && bs != nil && core.QualNamedOf(bc.Type()) == grpcPkg+".StreamDesc"
